@@ -587,6 +587,23 @@ func (ch *Chain) hookGasWithinBound(e M) bool {
 		panic(err)
 	}
 	const slack = 0 // the two runs differ only in what the hook meter charged: nothing else in the handler depends on the hook
+	// the bound is tight: with an allowance one unit below what the hook consumed when it succeeded, the same hook must run
+	// out of gas and the deposit must be refunded (its messages do not run on any other meter)
+	if success && with > without && p.HookMaxGas >= with-without {
+		fork := ch.Fork()
+		p2 := p
+		p2.HookMaxGas = with - without - 1
+		msg := fork.toMsg(e)
+		if err := fork.F.Child.Params.Set(fork.Ctx, p2); err == nil {
+			fork.Ctx = fork.Ctx.WithGasMeter(storetypes.NewGasMeter(500_000_000))
+			r := Deliver(fork.F, fork.Ctx, msg)
+			if r.OK {
+				if succ, _ := attr(r.Events, opchildtypes.EventTypeFinalizeTokenDeposit, opchildtypes.AttributeKeySuccess); succ == "true" {
+					return false
+				}
+			}
+		}
+	}
 	if os.Getenv("VERIF_DEBUG_GAS") != "" {
 		b2 := M{}
 		for k, v := range e {
